@@ -15,6 +15,8 @@ import (
 	"github.com/hedzr/logg/slog"
 	errorsv3 "gopkg.in/hedzr/errors.v3"
 
+	"verifharness/facade/applog"
+	fslog "verifharness/facade/slog"
 	"verifharness/gen"
 	"verifharness/mon"
 )
@@ -48,6 +50,9 @@ type c14entry struct {
 	name string
 	kind string // native | pkg | slogadapter | bridge
 	call func(l slog.Logger, sl *stdslog.Logger, bl *stdlog.Logger, c context.Context) []site
+	// facade frames between the call statement and the library: with skip count n the record is attributed to the
+	// frame n-extra above the call statement (cells with n < extra are not generated)
+	extra int
 }
 
 const cm = "caller-probe"
@@ -61,75 +66,86 @@ func makeStackErr() error { return errorsv3.New("error created elsewhere") }
 // NOTE: keep every function literal on ONE line: the expected line is the line of here().
 func c14entries() []c14entry {
 	return []c14entry{
-		{"Error", "native", func(l slog.Logger, _ *stdslog.Logger, _ *stdlog.Logger, c context.Context) []site { s := here(); l.Error(cm, "a", 1); return s }},
-		{"Warn", "native", func(l slog.Logger, _ *stdslog.Logger, _ *stdlog.Logger, c context.Context) []site { s := here(); l.Warn(cm, "a", 1); return s }},
-		{"Info", "native", func(l slog.Logger, _ *stdslog.Logger, _ *stdlog.Logger, c context.Context) []site { s := here(); l.Info(cm, "a", 1); return s }},
-		{"Debug", "native", func(l slog.Logger, _ *stdslog.Logger, _ *stdlog.Logger, c context.Context) []site { s := here(); l.Debug(cm, "a", 1); return s }},
-		{"Trace", "native", func(l slog.Logger, _ *stdslog.Logger, _ *stdlog.Logger, c context.Context) []site { s := here(); l.Trace(cm, "a", 1); return s }},
-		{"Print", "native", func(l slog.Logger, _ *stdslog.Logger, _ *stdlog.Logger, c context.Context) []site { s := here(); l.Print(cm, "a", 1); return s }},
-		{"Println", "native", func(l slog.Logger, _ *stdslog.Logger, _ *stdlog.Logger, c context.Context) []site { s := here(); l.Println(cm, "a", 1); return s }},
-		{"OK", "native", func(l slog.Logger, _ *stdslog.Logger, _ *stdlog.Logger, c context.Context) []site { s := here(); l.OK(cm, "a", 1); return s }},
-		{"Success", "native", func(l slog.Logger, _ *stdslog.Logger, _ *stdlog.Logger, c context.Context) []site { s := here(); l.Success(cm, "a", 1); return s }},
-		{"Fail", "native", func(l slog.Logger, _ *stdslog.Logger, _ *stdlog.Logger, c context.Context) []site { s := here(); l.Fail(cm, "a", 1); return s }},
-		{"Panic", "native", func(l slog.Logger, _ *stdslog.Logger, _ *stdlog.Logger, c context.Context) []site { s := here(); l.Panic(cm, "a", 1); return s }},
-		{"Fatal", "native", func(l slog.Logger, _ *stdslog.Logger, _ *stdlog.Logger, c context.Context) []site { s := here(); l.Fatal(cm, "a", 1); return s }},
-		{"ErrorContext", "native", func(l slog.Logger, _ *stdslog.Logger, _ *stdlog.Logger, c context.Context) []site { s := here(); l.ErrorContext(c, cm, "a", 1); return s }},
-		{"WarnContext", "native", func(l slog.Logger, _ *stdslog.Logger, _ *stdlog.Logger, c context.Context) []site { s := here(); l.WarnContext(c, cm, "a", 1); return s }},
-		{"InfoContext", "native", func(l slog.Logger, _ *stdslog.Logger, _ *stdlog.Logger, c context.Context) []site { s := here(); l.InfoContext(c, cm, "a", 1); return s }},
-		{"DebugContext", "native", func(l slog.Logger, _ *stdslog.Logger, _ *stdlog.Logger, c context.Context) []site { s := here(); l.DebugContext(c, cm, "a", 1); return s }},
-		{"TraceContext", "native", func(l slog.Logger, _ *stdslog.Logger, _ *stdlog.Logger, c context.Context) []site { s := here(); l.TraceContext(c, cm, "a", 1); return s }},
-		{"PrintContext", "native", func(l slog.Logger, _ *stdslog.Logger, _ *stdlog.Logger, c context.Context) []site { s := here(); l.PrintContext(c, cm, "a", 1); return s }},
-		{"PrintlnContext", "native", func(l slog.Logger, _ *stdslog.Logger, _ *stdlog.Logger, c context.Context) []site { s := here(); l.PrintlnContext(c, cm, "a", 1); return s }},
-		{"OKContext", "native", func(l slog.Logger, _ *stdslog.Logger, _ *stdlog.Logger, c context.Context) []site { s := here(); l.OKContext(c, cm, "a", 1); return s }},
-		{"SuccessContext", "native", func(l slog.Logger, _ *stdslog.Logger, _ *stdlog.Logger, c context.Context) []site { s := here(); l.SuccessContext(c, cm, "a", 1); return s }},
-		{"FailContext", "native", func(l slog.Logger, _ *stdslog.Logger, _ *stdlog.Logger, c context.Context) []site { s := here(); l.FailContext(c, cm, "a", 1); return s }},
-		{"PanicContext", "native", func(l slog.Logger, _ *stdslog.Logger, _ *stdlog.Logger, c context.Context) []site { s := here(); l.PanicContext(c, cm, "a", 1); return s }},
-		{"FatalContext", "native", func(l slog.Logger, _ *stdslog.Logger, _ *stdlog.Logger, c context.Context) []site { s := here(); l.FatalContext(c, cm, "a", 1); return s }},
-		{"LogAttrs", "native", func(l slog.Logger, _ *stdslog.Logger, _ *stdlog.Logger, c context.Context) []site { s := here(); l.LogAttrs(c, slog.InfoLevel, cm, "a", 1); return s }},
-		{"Logit", "native", func(l slog.Logger, _ *stdslog.Logger, _ *stdlog.Logger, c context.Context) []site { s := here(); l.Logit(c, slog.WarnLevel, cm, "a", 1); return s }},
-		{"Log(std)", "native", func(l slog.Logger, _ *stdslog.Logger, _ *stdlog.Logger, c context.Context) []site { s := here(); l.Log(c, stdslog.LevelInfo, cm, "a", 1); return s }},
-		{"Infof", "native", func(l slog.Logger, _ *stdslog.Logger, _ *stdlog.Logger, c context.Context) []site { s := here(); _ = l.Infof("%s", cm); return s }},
-		{"Warnf", "native", func(l slog.Logger, _ *stdslog.Logger, _ *stdlog.Logger, c context.Context) []site { s := here(); _ = l.Warnf("%s", cm); return s }},
-		{"Errorf", "native", func(l slog.Logger, _ *stdslog.Logger, _ *stdlog.Logger, c context.Context) []site { s := here(); _ = l.Errorf("%s", cm); return s }},
-		{"pkg.Error", "pkg", func(_ slog.Logger, _ *stdslog.Logger, _ *stdlog.Logger, c context.Context) []site { s := here(); slog.Error(cm, "a", 1); return s }},
-		{"pkg.Warn", "pkg", func(_ slog.Logger, _ *stdslog.Logger, _ *stdlog.Logger, c context.Context) []site { s := here(); slog.Warn(cm, "a", 1); return s }},
-		{"pkg.Info", "pkg", func(_ slog.Logger, _ *stdslog.Logger, _ *stdlog.Logger, c context.Context) []site { s := here(); slog.Info(cm, "a", 1); return s }},
-		{"pkg.Debug", "pkg", func(_ slog.Logger, _ *stdslog.Logger, _ *stdlog.Logger, c context.Context) []site { s := here(); slog.Debug(cm, "a", 1); return s }},
-		{"pkg.Trace", "pkg", func(_ slog.Logger, _ *stdslog.Logger, _ *stdlog.Logger, c context.Context) []site { s := here(); slog.Trace(cm, "a", 1); return s }},
-		{"pkg.Print", "pkg", func(_ slog.Logger, _ *stdslog.Logger, _ *stdlog.Logger, c context.Context) []site { s := here(); slog.Print(cm, "a", 1); return s }},
-		{"pkg.Println", "pkg", func(_ slog.Logger, _ *stdslog.Logger, _ *stdlog.Logger, c context.Context) []site { s := here(); slog.Println(cm, "a", 1); return s }},
-		{"pkg.OK", "pkg", func(_ slog.Logger, _ *stdslog.Logger, _ *stdlog.Logger, c context.Context) []site { s := here(); slog.OK(cm, "a", 1); return s }},
-		{"pkg.Success", "pkg", func(_ slog.Logger, _ *stdslog.Logger, _ *stdlog.Logger, c context.Context) []site { s := here(); slog.Success(cm, "a", 1); return s }},
-		{"pkg.Fail", "pkg", func(_ slog.Logger, _ *stdslog.Logger, _ *stdlog.Logger, c context.Context) []site { s := here(); slog.Fail(cm, "a", 1); return s }},
-		{"pkg.Panic", "pkg", func(_ slog.Logger, _ *stdslog.Logger, _ *stdlog.Logger, c context.Context) []site { s := here(); slog.Panic(cm, "a", 1); return s }},
-		{"pkg.Fatal", "pkg", func(_ slog.Logger, _ *stdslog.Logger, _ *stdlog.Logger, c context.Context) []site { s := here(); slog.Fatal(cm, "a", 1); return s }},
-		{"pkg.ErrorContext", "pkg", func(_ slog.Logger, _ *stdslog.Logger, _ *stdlog.Logger, c context.Context) []site { s := here(); slog.ErrorContext(c, cm, "a", 1); return s }},
-		{"pkg.WarnContext", "pkg", func(_ slog.Logger, _ *stdslog.Logger, _ *stdlog.Logger, c context.Context) []site { s := here(); slog.WarnContext(c, cm, "a", 1); return s }},
-		{"pkg.InfoContext", "pkg", func(_ slog.Logger, _ *stdslog.Logger, _ *stdlog.Logger, c context.Context) []site { s := here(); slog.InfoContext(c, cm, "a", 1); return s }},
-		{"pkg.DebugContext", "pkg", func(_ slog.Logger, _ *stdslog.Logger, _ *stdlog.Logger, c context.Context) []site { s := here(); slog.DebugContext(c, cm, "a", 1); return s }},
-		{"pkg.TraceContext", "pkg", func(_ slog.Logger, _ *stdslog.Logger, _ *stdlog.Logger, c context.Context) []site { s := here(); slog.TraceContext(c, cm, "a", 1); return s }},
-		{"pkg.PrintContext", "pkg", func(_ slog.Logger, _ *stdslog.Logger, _ *stdlog.Logger, c context.Context) []site { s := here(); slog.PrintContext(c, cm, "a", 1); return s }},
-		{"pkg.PrintlnContext", "pkg", func(_ slog.Logger, _ *stdslog.Logger, _ *stdlog.Logger, c context.Context) []site { s := here(); slog.PrintlnContext(c, cm, "a", 1); return s }},
-		{"pkg.OKContext", "pkg", func(_ slog.Logger, _ *stdslog.Logger, _ *stdlog.Logger, c context.Context) []site { s := here(); slog.OKContext(c, cm, "a", 1); return s }},
-		{"pkg.SuccessContext", "pkg", func(_ slog.Logger, _ *stdslog.Logger, _ *stdlog.Logger, c context.Context) []site { s := here(); slog.SuccessContext(c, cm, "a", 1); return s }},
-		{"pkg.FailContext", "pkg", func(_ slog.Logger, _ *stdslog.Logger, _ *stdlog.Logger, c context.Context) []site { s := here(); slog.FailContext(c, cm, "a", 1); return s }},
-		{"pkg.PanicContext", "pkg", func(_ slog.Logger, _ *stdslog.Logger, _ *stdlog.Logger, c context.Context) []site { s := here(); slog.PanicContext(c, cm, "a", 1); return s }},
-		{"pkg.FatalContext", "pkg", func(_ slog.Logger, _ *stdslog.Logger, _ *stdlog.Logger, c context.Context) []site { s := here(); slog.FatalContext(c, cm, "a", 1); return s }},
-		{"Info+stackerr", "native", func(l slog.Logger, _ *stdslog.Logger, _ *stdlog.Logger, c context.Context) []site { s := here(); l.Info(cm, "err", stackErr, "a", 1); return s }},
-		{"ErrorContext+stackerr", "native", func(l slog.Logger, _ *stdslog.Logger, _ *stdlog.Logger, c context.Context) []site { s := here(); l.ErrorContext(c, cm, "err", stackErr); return s }},
-		{"LogAttrs+stackerr", "native", func(l slog.Logger, _ *stdslog.Logger, _ *stdlog.Logger, c context.Context) []site { s := here(); l.LogAttrs(c, slog.WarnLevel, cm, slog.NewAttr("err", stackErr)); return s }},
-		{"pkg.Warn+stackerr", "pkg", func(_ slog.Logger, _ *stdslog.Logger, _ *stdlog.Logger, c context.Context) []site { s := here(); slog.Warn(cm, "err", stackErr); return s }},
-		{"slog.Logger.Error+stackerr", "slogadapter", func(_ slog.Logger, sl *stdslog.Logger, _ *stdlog.Logger, c context.Context) []site { s := here(); sl.Error(cm, "err", stackErr); return s }},
-		{"slog.Logger.Info", "slogadapter", func(_ slog.Logger, sl *stdslog.Logger, _ *stdlog.Logger, c context.Context) []site { s := here(); sl.Info(cm, "a", 1); return s }},
-		{"slog.Logger.WarnContext", "slogadapter", func(_ slog.Logger, sl *stdslog.Logger, _ *stdlog.Logger, c context.Context) []site { s := here(); sl.WarnContext(c, cm, "a", 1); return s }},
-		{"slog.Logger.Log", "slogadapter", func(_ slog.Logger, sl *stdslog.Logger, _ *stdlog.Logger, c context.Context) []site { s := here(); sl.Log(c, stdslog.LevelError, cm, "a", 1); return s }},
-		{"slog.Logger.LogAttrs", "slogadapter", func(_ slog.Logger, sl *stdslog.Logger, _ *stdlog.Logger, c context.Context) []site { s := here(); sl.LogAttrs(c, stdslog.LevelInfo, cm, stdslog.Int("a", 1)); return s }},
-		{"slog.Logger.With.Info", "slogadapter", func(_ slog.Logger, sl *stdslog.Logger, _ *stdlog.Logger, c context.Context) []site { s := here(); sl.With("w", 2).Info(cm, "a", 1); return s }},
-		{"slog.Info(default)", "slogadapter-default", func(_ slog.Logger, sl *stdslog.Logger, _ *stdlog.Logger, c context.Context) []site { s := here(); stdslog.Info(cm, "a", 1); return s }},
-		{"log.Print", "bridge", func(_ slog.Logger, _ *stdslog.Logger, bl *stdlog.Logger, c context.Context) []site { s := here(); bl.Print(cm); return s }},
-		{"log.Printf", "bridge", func(_ slog.Logger, _ *stdslog.Logger, bl *stdlog.Logger, c context.Context) []site { s := here(); bl.Printf("%s", cm); return s }},
-		{"log.Println", "bridge", func(_ slog.Logger, _ *stdslog.Logger, bl *stdlog.Logger, c context.Context) []site { s := here(); bl.Println(cm); return s }},
-		{"log.Output", "bridge", func(_ slog.Logger, _ *stdslog.Logger, bl *stdlog.Logger, c context.Context) []site { s := here(); _ = bl.Output(1, cm); return s }},
+		{"Error", "native", func(l slog.Logger, _ *stdslog.Logger, _ *stdlog.Logger, c context.Context) []site { s := here(); l.Error(cm, "a", 1); return s }, 0},
+		{"Warn", "native", func(l slog.Logger, _ *stdslog.Logger, _ *stdlog.Logger, c context.Context) []site { s := here(); l.Warn(cm, "a", 1); return s }, 0},
+		{"Info", "native", func(l slog.Logger, _ *stdslog.Logger, _ *stdlog.Logger, c context.Context) []site { s := here(); l.Info(cm, "a", 1); return s }, 0},
+		{"Debug", "native", func(l slog.Logger, _ *stdslog.Logger, _ *stdlog.Logger, c context.Context) []site { s := here(); l.Debug(cm, "a", 1); return s }, 0},
+		{"Trace", "native", func(l slog.Logger, _ *stdslog.Logger, _ *stdlog.Logger, c context.Context) []site { s := here(); l.Trace(cm, "a", 1); return s }, 0},
+		{"Print", "native", func(l slog.Logger, _ *stdslog.Logger, _ *stdlog.Logger, c context.Context) []site { s := here(); l.Print(cm, "a", 1); return s }, 0},
+		{"Println", "native", func(l slog.Logger, _ *stdslog.Logger, _ *stdlog.Logger, c context.Context) []site { s := here(); l.Println(cm, "a", 1); return s }, 0},
+		{"OK", "native", func(l slog.Logger, _ *stdslog.Logger, _ *stdlog.Logger, c context.Context) []site { s := here(); l.OK(cm, "a", 1); return s }, 0},
+		{"Success", "native", func(l slog.Logger, _ *stdslog.Logger, _ *stdlog.Logger, c context.Context) []site { s := here(); l.Success(cm, "a", 1); return s }, 0},
+		{"Fail", "native", func(l slog.Logger, _ *stdslog.Logger, _ *stdlog.Logger, c context.Context) []site { s := here(); l.Fail(cm, "a", 1); return s }, 0},
+		{"Panic", "native", func(l slog.Logger, _ *stdslog.Logger, _ *stdlog.Logger, c context.Context) []site { s := here(); l.Panic(cm, "a", 1); return s }, 0},
+		{"Fatal", "native", func(l slog.Logger, _ *stdslog.Logger, _ *stdlog.Logger, c context.Context) []site { s := here(); l.Fatal(cm, "a", 1); return s }, 0},
+		{"ErrorContext", "native", func(l slog.Logger, _ *stdslog.Logger, _ *stdlog.Logger, c context.Context) []site { s := here(); l.ErrorContext(c, cm, "a", 1); return s }, 0},
+		{"WarnContext", "native", func(l slog.Logger, _ *stdslog.Logger, _ *stdlog.Logger, c context.Context) []site { s := here(); l.WarnContext(c, cm, "a", 1); return s }, 0},
+		{"InfoContext", "native", func(l slog.Logger, _ *stdslog.Logger, _ *stdlog.Logger, c context.Context) []site { s := here(); l.InfoContext(c, cm, "a", 1); return s }, 0},
+		{"DebugContext", "native", func(l slog.Logger, _ *stdslog.Logger, _ *stdlog.Logger, c context.Context) []site { s := here(); l.DebugContext(c, cm, "a", 1); return s }, 0},
+		{"TraceContext", "native", func(l slog.Logger, _ *stdslog.Logger, _ *stdlog.Logger, c context.Context) []site { s := here(); l.TraceContext(c, cm, "a", 1); return s }, 0},
+		{"PrintContext", "native", func(l slog.Logger, _ *stdslog.Logger, _ *stdlog.Logger, c context.Context) []site { s := here(); l.PrintContext(c, cm, "a", 1); return s }, 0},
+		{"PrintlnContext", "native", func(l slog.Logger, _ *stdslog.Logger, _ *stdlog.Logger, c context.Context) []site { s := here(); l.PrintlnContext(c, cm, "a", 1); return s }, 0},
+		{"OKContext", "native", func(l slog.Logger, _ *stdslog.Logger, _ *stdlog.Logger, c context.Context) []site { s := here(); l.OKContext(c, cm, "a", 1); return s }, 0},
+		{"SuccessContext", "native", func(l slog.Logger, _ *stdslog.Logger, _ *stdlog.Logger, c context.Context) []site { s := here(); l.SuccessContext(c, cm, "a", 1); return s }, 0},
+		{"FailContext", "native", func(l slog.Logger, _ *stdslog.Logger, _ *stdlog.Logger, c context.Context) []site { s := here(); l.FailContext(c, cm, "a", 1); return s }, 0},
+		{"PanicContext", "native", func(l slog.Logger, _ *stdslog.Logger, _ *stdlog.Logger, c context.Context) []site { s := here(); l.PanicContext(c, cm, "a", 1); return s }, 0},
+		{"FatalContext", "native", func(l slog.Logger, _ *stdslog.Logger, _ *stdlog.Logger, c context.Context) []site { s := here(); l.FatalContext(c, cm, "a", 1); return s }, 0},
+		{"LogAttrs", "native", func(l slog.Logger, _ *stdslog.Logger, _ *stdlog.Logger, c context.Context) []site { s := here(); l.LogAttrs(c, slog.InfoLevel, cm, "a", 1); return s }, 0},
+		{"Logit", "native", func(l slog.Logger, _ *stdslog.Logger, _ *stdlog.Logger, c context.Context) []site { s := here(); l.Logit(c, slog.WarnLevel, cm, "a", 1); return s }, 0},
+		{"Log(std)", "native", func(l slog.Logger, _ *stdslog.Logger, _ *stdlog.Logger, c context.Context) []site { s := here(); l.Log(c, stdslog.LevelInfo, cm, "a", 1); return s }, 0},
+		{"Infof", "native", func(l slog.Logger, _ *stdslog.Logger, _ *stdlog.Logger, c context.Context) []site { s := here(); _ = l.Infof("%s", cm); return s }, 0},
+		{"Warnf", "native", func(l slog.Logger, _ *stdslog.Logger, _ *stdlog.Logger, c context.Context) []site { s := here(); _ = l.Warnf("%s", cm); return s }, 0},
+		{"Errorf", "native", func(l slog.Logger, _ *stdslog.Logger, _ *stdlog.Logger, c context.Context) []site { s := here(); _ = l.Errorf("%s", cm); return s }, 0},
+		{"pkg.Error", "pkg", func(_ slog.Logger, _ *stdslog.Logger, _ *stdlog.Logger, c context.Context) []site { s := here(); slog.Error(cm, "a", 1); return s }, 0},
+		{"pkg.Warn", "pkg", func(_ slog.Logger, _ *stdslog.Logger, _ *stdlog.Logger, c context.Context) []site { s := here(); slog.Warn(cm, "a", 1); return s }, 0},
+		{"pkg.Info", "pkg", func(_ slog.Logger, _ *stdslog.Logger, _ *stdlog.Logger, c context.Context) []site { s := here(); slog.Info(cm, "a", 1); return s }, 0},
+		{"pkg.Debug", "pkg", func(_ slog.Logger, _ *stdslog.Logger, _ *stdlog.Logger, c context.Context) []site { s := here(); slog.Debug(cm, "a", 1); return s }, 0},
+		{"pkg.Trace", "pkg", func(_ slog.Logger, _ *stdslog.Logger, _ *stdlog.Logger, c context.Context) []site { s := here(); slog.Trace(cm, "a", 1); return s }, 0},
+		{"pkg.Print", "pkg", func(_ slog.Logger, _ *stdslog.Logger, _ *stdlog.Logger, c context.Context) []site { s := here(); slog.Print(cm, "a", 1); return s }, 0},
+		{"pkg.Println", "pkg", func(_ slog.Logger, _ *stdslog.Logger, _ *stdlog.Logger, c context.Context) []site { s := here(); slog.Println(cm, "a", 1); return s }, 0},
+		{"pkg.OK", "pkg", func(_ slog.Logger, _ *stdslog.Logger, _ *stdlog.Logger, c context.Context) []site { s := here(); slog.OK(cm, "a", 1); return s }, 0},
+		{"pkg.Success", "pkg", func(_ slog.Logger, _ *stdslog.Logger, _ *stdlog.Logger, c context.Context) []site { s := here(); slog.Success(cm, "a", 1); return s }, 0},
+		{"pkg.Fail", "pkg", func(_ slog.Logger, _ *stdslog.Logger, _ *stdlog.Logger, c context.Context) []site { s := here(); slog.Fail(cm, "a", 1); return s }, 0},
+		{"pkg.Panic", "pkg", func(_ slog.Logger, _ *stdslog.Logger, _ *stdlog.Logger, c context.Context) []site { s := here(); slog.Panic(cm, "a", 1); return s }, 0},
+		{"pkg.Fatal", "pkg", func(_ slog.Logger, _ *stdslog.Logger, _ *stdlog.Logger, c context.Context) []site { s := here(); slog.Fatal(cm, "a", 1); return s }, 0},
+		{"pkg.ErrorContext", "pkg", func(_ slog.Logger, _ *stdslog.Logger, _ *stdlog.Logger, c context.Context) []site { s := here(); slog.ErrorContext(c, cm, "a", 1); return s }, 0},
+		{"pkg.WarnContext", "pkg", func(_ slog.Logger, _ *stdslog.Logger, _ *stdlog.Logger, c context.Context) []site { s := here(); slog.WarnContext(c, cm, "a", 1); return s }, 0},
+		{"pkg.InfoContext", "pkg", func(_ slog.Logger, _ *stdslog.Logger, _ *stdlog.Logger, c context.Context) []site { s := here(); slog.InfoContext(c, cm, "a", 1); return s }, 0},
+		{"pkg.DebugContext", "pkg", func(_ slog.Logger, _ *stdslog.Logger, _ *stdlog.Logger, c context.Context) []site { s := here(); slog.DebugContext(c, cm, "a", 1); return s }, 0},
+		{"pkg.TraceContext", "pkg", func(_ slog.Logger, _ *stdslog.Logger, _ *stdlog.Logger, c context.Context) []site { s := here(); slog.TraceContext(c, cm, "a", 1); return s }, 0},
+		{"pkg.PrintContext", "pkg", func(_ slog.Logger, _ *stdslog.Logger, _ *stdlog.Logger, c context.Context) []site { s := here(); slog.PrintContext(c, cm, "a", 1); return s }, 0},
+		{"pkg.PrintlnContext", "pkg", func(_ slog.Logger, _ *stdslog.Logger, _ *stdlog.Logger, c context.Context) []site { s := here(); slog.PrintlnContext(c, cm, "a", 1); return s }, 0},
+		{"pkg.OKContext", "pkg", func(_ slog.Logger, _ *stdslog.Logger, _ *stdlog.Logger, c context.Context) []site { s := here(); slog.OKContext(c, cm, "a", 1); return s }, 0},
+		{"pkg.SuccessContext", "pkg", func(_ slog.Logger, _ *stdslog.Logger, _ *stdlog.Logger, c context.Context) []site { s := here(); slog.SuccessContext(c, cm, "a", 1); return s }, 0},
+		{"pkg.FailContext", "pkg", func(_ slog.Logger, _ *stdslog.Logger, _ *stdlog.Logger, c context.Context) []site { s := here(); slog.FailContext(c, cm, "a", 1); return s }, 0},
+		{"pkg.PanicContext", "pkg", func(_ slog.Logger, _ *stdslog.Logger, _ *stdlog.Logger, c context.Context) []site { s := here(); slog.PanicContext(c, cm, "a", 1); return s }, 0},
+		{"pkg.FatalContext", "pkg", func(_ slog.Logger, _ *stdslog.Logger, _ *stdlog.Logger, c context.Context) []site { s := here(); slog.FatalContext(c, cm, "a", 1); return s }, 0},
+		{"Info+stackerr", "native", func(l slog.Logger, _ *stdslog.Logger, _ *stdlog.Logger, c context.Context) []site { s := here(); l.Info(cm, "err", stackErr, "a", 1); return s }, 0},
+		{"ErrorContext+stackerr", "native", func(l slog.Logger, _ *stdslog.Logger, _ *stdlog.Logger, c context.Context) []site { s := here(); l.ErrorContext(c, cm, "err", stackErr); return s }, 0},
+		{"LogAttrs+stackerr", "native", func(l slog.Logger, _ *stdslog.Logger, _ *stdlog.Logger, c context.Context) []site { s := here(); l.LogAttrs(c, slog.WarnLevel, cm, slog.NewAttr("err", stackErr)); return s }, 0},
+		{"pkg.Warn+stackerr", "pkg", func(_ slog.Logger, _ *stdslog.Logger, _ *stdlog.Logger, c context.Context) []site { s := here(); slog.Warn(cm, "err", stackErr); return s }, 0},
+		{"slog.Logger.Error+stackerr", "slogadapter", func(_ slog.Logger, sl *stdslog.Logger, _ *stdlog.Logger, c context.Context) []site { s := here(); sl.Error(cm, "err", stackErr); return s }, 0},
+		{"slog.Logger.Info", "slogadapter", func(_ slog.Logger, sl *stdslog.Logger, _ *stdlog.Logger, c context.Context) []site { s := here(); sl.Info(cm, "a", 1); return s }, 0},
+		{"slog.Logger.WarnContext", "slogadapter", func(_ slog.Logger, sl *stdslog.Logger, _ *stdlog.Logger, c context.Context) []site { s := here(); sl.WarnContext(c, cm, "a", 1); return s }, 0},
+		{"slog.Logger.Log", "slogadapter", func(_ slog.Logger, sl *stdslog.Logger, _ *stdlog.Logger, c context.Context) []site { s := here(); sl.Log(c, stdslog.LevelError, cm, "a", 1); return s }, 0},
+		{"slog.Logger.LogAttrs", "slogadapter", func(_ slog.Logger, sl *stdslog.Logger, _ *stdlog.Logger, c context.Context) []site { s := here(); sl.LogAttrs(c, stdslog.LevelInfo, cm, stdslog.Int("a", 1)); return s }, 0},
+		{"slog.Logger.With.Info", "slogadapter", func(_ slog.Logger, sl *stdslog.Logger, _ *stdlog.Logger, c context.Context) []site { s := here(); sl.With("w", 2).Info(cm, "a", 1); return s }, 0},
+		{"slog.Info(default)", "slogadapter-default", func(_ slog.Logger, sl *stdslog.Logger, _ *stdlog.Logger, c context.Context) []site { s := here(); stdslog.Info(cm, "a", 1); return s }, 0},
+		{"log.Print", "bridge", func(_ slog.Logger, _ *stdslog.Logger, bl *stdlog.Logger, c context.Context) []site { s := here(); bl.Print(cm); return s }, 0},
+		{"log.Printf", "bridge", func(_ slog.Logger, _ *stdslog.Logger, bl *stdlog.Logger, c context.Context) []site { s := here(); bl.Printf("%s", cm); return s }, 0},
+		{"log.Println", "bridge", func(_ slog.Logger, _ *stdslog.Logger, bl *stdlog.Logger, c context.Context) []site { s := here(); bl.Println(cm); return s }, 0},
+		{"Println(int,...)", "native", func(l slog.Logger, _ *stdslog.Logger, _ *stdlog.Logger, c context.Context) []site { s := here(); l.Println(42, "a", 1); return s }, 0},
+		{"Println(error,...)", "native", func(l slog.Logger, _ *stdslog.Logger, _ *stdlog.Logger, c context.Context) []site { s := here(); l.Println(stackErr, "a", 1); return s }, 0},
+		{"Println(struct)", "native", func(l slog.Logger, _ *stdslog.Logger, _ *stdlog.Logger, c context.Context) []site { s := here(); l.Println(struct{ A int }{7}); return s }, 0},
+		{"pkg.Println(int,...)", "pkg", func(_ slog.Logger, _ *stdslog.Logger, _ *stdlog.Logger, c context.Context) []site { s := here(); slog.Println(42, "a", 1); return s }, 0},
+		{"pkg.Println(nil)", "pkg", func(_ slog.Logger, _ *stdslog.Logger, _ *stdlog.Logger, c context.Context) []site { s := here(); slog.Println(nil, "a", 1); return s }, 0},
+		{"facade applog.(*Logger).Infof over the bridge", "bridge", func(_ slog.Logger, _ *stdslog.Logger, bl *stdlog.Logger, c context.Context) []site { s := here(); applog.New(bl).Infof("%s", cm); return s }, 1},
+		{"facade applog.(*Logger).Warnf (noinline) over the bridge", "bridge", func(_ slog.Logger, _ *stdslog.Logger, bl *stdlog.Logger, c context.Context) []site { s := here(); applog.New(bl).Warnf("%s", cm); return s }, 1},
+		{"facade applog.(*Logger).Println over the bridge", "bridge", func(_ slog.Logger, _ *stdslog.Logger, bl *stdlog.Logger, c context.Context) []site { s := here(); applog.New(bl).Println(cm); return s }, 1},
+		{"facade slog.(*Entry).Info over the native API", "native", func(l slog.Logger, _ *stdslog.Logger, _ *stdlog.Logger, c context.Context) []site { s := here(); (&fslog.Entry{L: l}).Info(cm, "a", 1); return s }, 1},
+		{"facade slog.(*Entry).WarnContext (noinline) over the native API", "native", func(l slog.Logger, _ *stdslog.Logger, _ *stdlog.Logger, c context.Context) []site { s := here(); (&fslog.Entry{L: l}).WarnContext(c, cm, "a", 1); return s }, 1},
+		{"facade slog.(*Entry).Error->logContext over the native API", "native", func(l slog.Logger, _ *stdslog.Logger, _ *stdlog.Logger, c context.Context) []site { s := here(); (&fslog.Entry{L: l}).Error(c, cm, "a", 1); return s }, 2},
+		{"log.Output", "bridge", func(_ slog.Logger, _ *stdslog.Logger, bl *stdlog.Logger, c context.Context) []site { s := here(); _ = bl.Output(1, cm); return s }, 0},
 	}
 }
 
@@ -222,6 +238,9 @@ func c14sites(c *Ctx) {
 					for _, ni := range []bool{false, true} {
 						if skip == 0 && ni {
 							continue
+						}
+						if skip < entries[ei].extra {
+							continue // the facade's own frames are not call sites of this harness
 						}
 						isPkg := entries[ei].kind == "pkg"
 						if isPkg != (k == "default") {
@@ -316,7 +335,7 @@ func c14sites(c *Ctx) {
 		}
 		// expected frame: the call statement for skip 0, n logical frames up for skip n. With closures in the
 		// wrapper chain each level contributes two frames (wrapper + closure), with the direct chain one.
-		want, ok := expectedFrame(stack, cl.skip)
+		want, ok := expectedFrame(stack, cl.skip-e.extra)
 		if !ok {
 			c.R.Violation(idx, "harness", "C14/harness/stack", fmt.Sprintf("stack too short: %+v", stack), desc)
 			return
